@@ -239,6 +239,9 @@ func readRollupFile(fd *os.File,
 			}
 			offset += int64(mrSize)
 
+			if !pqmr.BitsetFitsBuffer(bsBlk[:mrSize]) {
+				return fmt.Errorf("qid=%d, readRollupFile: bitset does not fit its %v bytes", qid, mrSize)
+			}
 			bs := bitset.New(0)
 			err = bs.UnmarshalBinary(bsBlk[:mrSize])
 			if err != nil {
